@@ -3,7 +3,7 @@
    in a world w = (cache content, server content, cache get / set faults, clock); the one-call theorems
    hold for EVERY world, hence for every world reached by any history (C18_history_* make that explicit
    over operation lists of any length). *)
-From NCG Require Import Model.Fetcher Proofs.Fetcher.
+From NCG Require Import Model.Fetcher Proofs.Fetcher Run.C18 Proofs.SpecAcceptsModel.
 
 Theorem C18_fetch_sound : forall cfg w url r cache' ev,
   fetch cfg w url = (r, cache', ev) ->
@@ -104,3 +104,10 @@ Theorem C18_non_http_is_error : forall cfg w url pre, plain_http url = false ->
   fetch_download cfg w url pre = (FErr, fw_cache w, pre).
 Proof. exact non_http_is_error. Qed.
 Print Assumptions C18_non_http_is_error.
+
+(* the boolean spec that the correspondence run applies to every Fetch of the IMPLEMENTATION (Run/C18.v,
+   fetch_spec) accepts every Fetch of the model, in every world: a spec violation reported by the run
+   always comes with a difference between implementation and model *)
+Theorem C18_spec_side_accepts_model : forall cfg w u, let '(r, _, ev) := fetch cfg w u in fetch_spec cfg w u r ev = 0%Z.
+Proof. exact model_fetch_passes_spec. Qed.
+Print Assumptions C18_spec_side_accepts_model.
